@@ -12,7 +12,9 @@ from crosshair import core
 from crosshair.core import realize, register_patch
 from crosshair.libimpl import relib
 from crosshair.tracers import NoTracing, ResumedTracing
-from crosshair.libimpl.builtinslib import AnySymbolicStr
+from crosshair.libimpl.builtinslib import AnySymbolicStr, BytesLike
+
+_SYM_TEXT = (AnySymbolicStr, BytesLike)
 
 _APPLIED = False
 
@@ -203,7 +205,7 @@ def _percent_format(self, other):
             out = out + str(a)
         else:
             with NoTracing():
-                sym = isinstance(a, AnySymbolicStr)
+                sym = isinstance(a, _SYM_TEXT)
                 if sym:
                     from crosshair.core import proxy_for_type
                     from crosshair.statespace import context_statespace
@@ -227,7 +229,7 @@ def _install_format_value_repr():
         if codenum == oi.FORMAT_VALUE and (flags & 0x03) == 0x02:
             value_idx = -2 if (flags & 0x04) else -1
             obj = frame_stack_read(frame, value_idx)
-            if isinstance(obj, AnySymbolicStr) and not (flags & 0x04):
+            if isinstance(obj, _SYM_TEXT) and not (flags & 0x04):
                 from crosshair.core import proxy_for_type
                 from crosshair.statespace import context_statespace
                 fresh = proxy_for_type(str, "fmtr" + context_statespace().uniq())
